@@ -1,5 +1,7 @@
 #!/bin/bash
-# Offline setup: nothing to fetch. Builds the scratch C++ extension used for native replays.
+# Offline setup: nothing is fetched. Pre-builds the scratch C++ extension (pytype.typegraph.cfg)
+# from /repo's sources into /verif/build/<hash>/ for native replays; checks rebuild it
+# themselves whenever the typegraph sources change.
 cd "$(dirname "$0")"
 mkdir -p build evidence replays
-exit 0
+/venv/bin/python -B -c "import sys; sys.path.insert(0,'native'); import common; print(common.ensure_ext('/repo'))"
